@@ -1,5 +1,5 @@
 //@ assume: equality of the abstract Input / Output / TxKernel values stands for the real PartialEq (`contains` => `has`: true iff an equal element is in the list); a kernel's excess and an input's / output's commitment are uninterpreted functions of the element (two different kernels may share an excess); Transaction::new sorts (a permutation), `sort_unstable` likewise
-//@ assume: T6: the block computing `total_kernel_offset` (static_secp_instance, two iterator pipelines that drop zero offsets, secp blind_sum) => offset_difference(mk_tx.offset, kernel_offsets), ASSUMED to return the group difference sp_offset_diff(mk offset, the single collected offset) or an error -- the pipelines' closures are not verified here (same shape as C20/blind_sum, where they are); `vec![]` => Vec::new(); `let v: Vec<_> = t.inputs().into()` => inputs_of(&t); by-value `for x in vec` => slice iterator + copy; `X.contains(&y)` => `X.has(&y)`; `Inputs::from(inputs.as_slice())` => inputs_from
+//@ assume: T6: the block computing `total_kernel_offset` (static_secp_instance, two iterator pipelines that drop zero offsets, secp blind_sum) => offset_difference(mk_tx.offset, kernel_offsets), ASSUMED to return the group difference sp_offset_diff(mk offset, the single collected offset) or an error -- the block itself (its two pipelines, their closures and the handling of a cancelling sum) is verified as a lifted function in C12/offset_sums; `vec![]` => Vec::new(); `let v: Vec<_> = t.inputs().into()` => inputs_of(&t); by-value `for x in vec` => slice iterator + copy; `X.contains(&y)` => `X.has(&y)`; `Inputs::from(inputs.as_slice())` => inputs_from
 //@ assume: decided here (C12, 'de-aggregating a known subset returns the remainder'), for ANY multi-kernel transaction and ANY list of known transactions: transaction::deaggregate(mk_tx, txs) aggregates txs with the real transaction::aggregate (C12/aggregate, included and re-verified) and returns a transaction whose inputs / outputs / kernels are EXACTLY the elements of mk_tx that do not occur (as whole elements, not merely by commitment or excess) among the aggregate's inputs / outputs / kernels, each once, and whose offset is mk_tx's offset minus the aggregate's. That this equals 'the remainder' presupposes the stated condition (no cross-spends between the known subset and the rest). Validity of the result is not decided.
 //@ assumed_items: 10
 //@ fns: transaction::deaggregate
@@ -161,7 +161,7 @@ proof fn lemma_nodup_count<T>(s: Seq<T>, x: T)
 //@   rewrite `for mk_output in mk_tx.outputs() {` => `for mk_output in it2: mk_tx.outputs().iter() {`
 //@   rewrite `for mk_kernel in mk_tx.kernels() {` => `for mk_kernel in it3: mk_tx.kernels().iter() {`
 //@   rewrite `.contains(` => `.has(` x6
-//@   rewrite `let total_kernel_offset = {\n\t\tlet secp = static_secp_instance();\n\t\tlet secp = secp.lock();\n\t\tlet positive_key = vec![mk_tx.offset]\n\t\t\t.into_iter()\n\t\t\t.filter(|x| *x != BlindingFactor::zero())\n\t\t\t.filter_map(|x| x.secret_key(&secp).ok())\n\t\t\t.collect::<Vec<_>>();\n\t\tlet negative_keys = kernel_offsets\n\t\t\t.into_iter()\n\t\t\t.filter(|x| *x != BlindingFactor::zero())\n\t\t\t.filter_map(|x| x.secret_key(&secp).ok())\n\t\t\t.collect::<Vec<_>>();\n\n\t\tif positive_key.is_empty() && negative_keys.is_empty() {\n\t\t\tBlindingFactor::zero()\n\t\t} else {\n\t\t\tlet sum = secp.blind_sum(positive_key, negative_keys)?;\n\t\t\tBlindingFactor::from_secret_key(sum)\n\t\t}\n\t};` => `let total_kernel_offset = offset_difference(mk_tx.offset, kernel_offsets)?;`
+//@   block `let total_kernel_offset = ` replaced_by `offset_difference(mk_tx.offset, kernel_offsets)?`
 //@   rewrite `inputs.sort_unstable();` => `sort_perm(&mut inputs);`
 //@   rewrite `outputs.sort_unstable();` => `sort_perm(&mut outputs);`
 //@   rewrite `kernels.sort_unstable();` => `sort_perm(&mut kernels);`
